@@ -18,6 +18,7 @@ import (
 	"github.com/absfs/absnfs"
 	"pgregory.net/rapid"
 
+	"verif/harness/drv"
 	"verif/harness/nfsx"
 	"verif/harness/stat"
 	"verif/harness/vfs"
@@ -45,6 +46,10 @@ type c03Case struct {
 	// by a RENAME through the server (Via "rename") or is put there directly.
 	Former string `json:"former,omitempty"`
 	Via    string `json:"via,omitempty"`
+	// Fresh (Existing == "file"): the file is not planted but was created through the server a moment ago by another
+	// client, with the very sattr3 the request under test carries, and is still empty - a lock file, say. It exists
+	// all the same.
+	Fresh bool `json:"fresh,omitempty"`
 }
 
 func (c c03Case) sattr() nfsx.Sattr {
@@ -73,6 +78,7 @@ func (c c03Case) sattr() nfsx.Sattr {
 func runC03(tb stat.TB, c c03Case) {
 	const id, check = "C03", "TestC03"
 	v := vfs.New()
+	v.WallClock = c.Fresh
 	opts := absnfs.ExportOptions{}
 	c.Cache.apply(&opts)
 	var faulty *vfs.Faulty
@@ -131,6 +137,16 @@ func runC03(tb stat.TB, c c03Case) {
 			}
 			f.WriteAt(data, 0)
 			f.Close()
+		} else if c.Fresh && c.Existing == "file" && c.Appear == 0 {
+			data = nil
+			other := drv.User(1000, 1000)
+			sa := c.sattr()
+			sa.Size = nil
+			res := s.nfsAs(other, nfsx.ProcCreate, nfsx.ArgsCreate(root, "x", nfsx.Guarded, sa, verfB))
+			if _, ok := v.PeekLstat("/x"); res.Status != nfsx.OK || !ok {
+				stat.Discard(false)
+				panic(abandon{"setup create by the other client failed"})
+			}
 		} else {
 			if c.Former != "" {
 				var mk, rm *nfsx.Res
@@ -418,6 +434,13 @@ func c03Enumerate() []c03Case {
 				}
 			}
 		}
+		if ex == "file" {
+			for _, how := range []uint32{nfsx.Unchecked, nfsx.Guarded, nfsx.Exclusive} {
+				for _, flags := range []int{0, 1, 7, 8, 9, 63} {
+					out = append(out, c03Case{Existing: ex, How: how, Flags: flags, Size: 0, Creator: "plain", Cache: baselineCaches, Fresh: true})
+				}
+			}
+		}
 		for _, cr := range []string{"same", "other", "plain"} {
 			out = append(out, c03Case{Existing: ex, Data: data, How: nfsx.Exclusive, Creator: cr, Cache: baselineCaches})
 			out = append(out, c03Case{Existing: ex, Data: data, How: nfsx.Exclusive, Creator: cr, Cache: cacheCfg{AttrTTLns: 3600e9, AttrSize: 10000, DirCache: true, Negative: true}, PreLook: true})
@@ -458,6 +481,7 @@ func genC03(t *rapid.T) c03Case {
 		PreLook:  rapid.Bool().Draw(t, "prelook"),
 		Appear:   pick(t, "appear", 0, 0, 0, 1, 2, 3, 4, 5),
 		Former:   pick(t, "former", "", "", "file", "dir", "link"),
+		Fresh:    rapid.IntRange(0, 3).Draw(t, "fresh") == 0,
 		Via:      pick(t, "via", "", "rename"),
 	}
 	if rapid.IntRange(0, 3).Draw(t, "fault") == 0 {
